@@ -2,7 +2,9 @@
 package backends
 
 import (
+	"bytes"
 	"fmt"
+	"io"
 	"net/http"
 	"os"
 	"path/filepath"
@@ -26,6 +28,11 @@ const (
 	MultiDir  Kind = "fs-multi-dir"
 	SingleMem Kind = "fs-single-memfs"
 	SingleDir Kind = "fs-single-dir"
+	// MemStream is s3mem behind a wrapper whose PutObject consumes the body
+	// reader with a fixed buffer size (Options.StreamBuf) instead of one
+	// full-size read, the way a streaming third-party Backend would
+	// (the Backend interface hands PutObject an io.Reader).
+	MemStream Kind = "mem-stream"
 )
 
 var All = []Kind{Mem, Bolt, MultiMem, MultiDir, SingleMem, SingleDir}
@@ -49,6 +56,7 @@ type Options struct {
 	MetaLimit       int      `json:"metaLimit,omitempty"` // 0 = default
 	TimeSkew        bool     `json:"timeSkew,omitempty"`  // false = skew check disabled
 	BoltSync        bool     `json:"boltSync,omitempty"`  // true = real fsync (C15)
+	StreamBuf       int      `json:"streamBuf,omitempty"` // MemStream: consumer buffer size (default 32 KiB)
 	// WrapFs, if set, wraps the object and metadata file systems of the fs
 	// backends (fault injection). Not serialised.
 	WrapFs func(afero.Fs) afero.Fs `json:"-"`
@@ -157,6 +165,12 @@ func (s *Stack) open() error {
 	switch s.Kind {
 	case Mem:
 		be = s3mem.New(s3mem.WithTimeSource(s.Clock), s3mem.WithVersionSeed(42))
+	case MemStream:
+		n := s.Opts.StreamBuf
+		if n <= 0 {
+			n = 32 * 1024
+		}
+		be = &streamBackend{Backend: s3mem.New(s3mem.WithTimeSource(s.Clock), s3mem.WithVersionSeed(42)), buf: n}
 	case Bolt:
 		db, err := bolt.Open(filepath.Join(s.dir, "s3.db"), 0600, &bolt.Options{NoSync: !s.Opts.BoltSync, Timeout: 5 * time.Second})
 		if err != nil {
@@ -264,3 +278,32 @@ func (s *Stack) Close() {
 
 // Tick advances the fixed clock (between operations only).
 func (s *Stack) Tick() { s.Clock.Advance(time.Second) }
+
+// streamBackend consumes PutObject's reader with a fixed-size buffer (like io.Copy does).
+type streamBackend struct {
+	*s3mem.Backend
+	buf int
+}
+
+func (b *streamBackend) PutObject(bucket, key string, meta map[string]string, input io.Reader, size int64) (gofakes3.PutObjectResult, error) {
+	var acc bytes.Buffer
+	p := make([]byte, b.buf)
+	for {
+		n, err := input.Read(p)
+		acc.Write(p[:n])
+		if err == io.EOF {
+			break
+		}
+		if err != nil {
+			return gofakes3.PutObjectResult{}, err
+		}
+	}
+	if int64(acc.Len()) != size {
+		return gofakes3.PutObjectResult{}, gofakes3.ErrIncompleteBody
+	}
+	return b.Backend.PutObject(bucket, key, meta, bytes.NewReader(acc.Bytes()), size)
+}
+
+func (b *streamBackend) CopyObject(srcBucket, srcKey, dstBucket, dstKey string, meta map[string]string) (gofakes3.CopyObjectResult, error) {
+	return gofakes3.CopyObject(b, srcBucket, srcKey, dstBucket, dstKey, meta)
+}
